@@ -143,7 +143,7 @@ def case_list(tier):
     cases = []
     for kind in ("numpy", "xarray"):
         for op in REDUCTIONS:
-            for k in range(2, kmax + 1):
+            for k in list(range(2, kmax + 1)) + ([5, 6, 9] if (tier == "quick" and op in ("sum", "prod", "mean")) else []):
                 for shape in shapes:
                     if k > 4 and shape != (2,):
                         continue
@@ -173,6 +173,10 @@ def case_list(tier):
         for op in ("add", "subtract", "multiply", "divide", "pow"):
             for shape in shapes:
                 cases.append((kind, "binary", op, 2, shape))
+        if kind == "numpy":
+            # arguments of different rank are broadcast against each other before stacking
+            for axis in (-3, -2, -1, 0, 1, 2):
+                cases.append((kind, "stack-mixed", "stack", 2, (2,), axis))
         for shape in shapes:
             for axis in range(len(shape)):
                 n_ax = shape[axis]
@@ -207,7 +211,8 @@ def case_list(tier):
     return cases, marked
 
 
-DTYPE_PAIRS = [("int64", "float64"), ("float64", "int64"), ("int8", "int64"), ("float32", "float64"), ("bool", "int64"), ("int64", "int64")]
+DTYPE_PAIRS = [("int64", "float64"), ("float64", "int64"), ("int8", "int64"), ("float32", "float64"), ("bool", "int64"), ("int64", "int64"),
+               ("int8", "int8"), ("uint8", "uint8"), ("bool", "bool"), ("int16", "int16")]
 
 
 def dtype_witness(dtype, first):
@@ -215,8 +220,10 @@ def dtype_witness(dtype, first):
         return np.array([True, False] if first else [True, True], dtype=bool)
     if dtype.startswith("float"):
         return np.array([1.0, 2.0] if first else [0.5, 300.25], dtype=dtype)
-    if dtype == "int8":
-        return np.array([1, 2] if first else [100, -7], dtype=dtype)
+    if dtype in ("int8", "uint8", "int16"):
+        # two values whose sum / product leaves the type: a reduction must widen as numpy's does
+        hi = {"int8": 100, "uint8": 200, "int16": 30000}[dtype]
+        return np.array([hi, 2] if first else [hi, 3 if dtype == "uint8" else -7], dtype=dtype)
     return np.array([1, 2] if first else [300, -7], dtype=dtype)
 
 
@@ -240,8 +247,16 @@ def run_dtype_case(case):
             got = f(*W, axis=0) if kind == "numpy" else f(*W, dim=DIMS[0])
             want = np.concatenate([p0, p1], axis=0)
         else:
+            try:
+                want = getattr(np, op)(a0, a1)
+            except TypeError:
+                # NumPy refuses the operation for these dtypes (bool - bool): the backend has to refuse it as well
+                try:
+                    f(W[0], W[1])
+                except Exception:
+                    return False, "both refuse"
+                return True, f"{op} of {a0.dtype} arrays: numpy raises TypeError, the backend returns a value"
             got = f(W[0], W[1])
-            want = getattr(np, op)(a0, a1)
     g = np.asarray(got.data if isinstance(got, xr.DataArray) else got)
     if g.shape != want.shape:
         return True, f"shape {g.shape} vs numpy {want.shape}"
@@ -300,6 +315,12 @@ def apply_case(case, inputs):
         got = f(*W, axis=axis) if kind == "numpy" else f(*W, dim="new", axis=axis)
         lab = [np.arange(a.size).reshape(a.shape) + 1000 * i for i, a in enumerate(inputs)]
         src = np.stack(lab, axis=axis)
+        shape, want = src.shape, [inputs[v // 1000].flatten()[v % 1000] for v in src.flatten()]
+    elif fam == "stack-mixed":
+        axis = case[5]
+        got = f(*W, axis=axis)
+        lab = [np.arange(a.size).reshape(a.shape) + 1000 * i for i, a in enumerate(inputs)]
+        src = np.stack(np.broadcast_arrays(*lab), axis=axis)
         shape, want = src.shape, [inputs[v // 1000].flatten()[v % 1000] for v in src.flatten()]
     elif fam == "concat":
         axis = case[5]
@@ -360,6 +381,9 @@ def run_case(case):
         out["solver_queries"], out["solver_seconds"], out["wall"] = 0, 0.0, time.perf_counter() - t0
         return out
     try:
+        if fam == "stack-mixed":
+            names = {"a0": (2,), "a1": (2, 2)}
+
         def once():
             inputs = [E.fresh_array(n, s) for n, s in names.items()]
             return apply_case(case, inputs)
